@@ -152,6 +152,8 @@ pub fn profile(prop: &str) -> Profile {
             p.prop = "C16";
             p.w[W_TRUNC] = 3;
             p.w[W_CLEAR] = 2;
+            p.w[W_REOPEN] = 2;
+            p.reopen_modes = 0b1111;
             p.w[W_SETMIN] = 3;
             p.w[W_DISCARD] = 2;
             p.w[W_INCDISC] = 2;
